@@ -146,6 +146,17 @@ def elem_of(t):
 # ('Array', p), ('Set', p), ('Dict', pk, pv), ('Tuple2', pa, pb), or a concrete type tuple.
 _T, _K, _V = ('v', 'T'), ('v', 'key'), ('v', 'value')
 _B, _S = ('Boolean',), ('String',)
+_N = ('n', 'T')          # tnum("T"): a numeric type
+
+
+def _vectorised(arg, ret):
+    """the three shapes ArrayFunctions.scala registers for every entry of arrayOps"""
+    return [([('Array', arg), arg], ('Array', ret)), ([arg, ('Array', arg)], ('Array', ret)), ([('Array', arg), ('Array', arg)], ('Array', ret))]
+
+
+# RETURN patterns: for registerIR functions lookupIR unifies the ARGUMENTS only and ApplyIR.explicitNode asserts that the declared return
+# type is the type of the implementation's body — the pattern is the body's type (div on int arrays: FloatingPointDivide gives float64,
+# the TFloat32 in the arrayOps table is read by nothing); for JVM functions (scalar mod / pow) the registered return type
 REGISTRY = {
     'append': [([('Array', _T), _T], ('Array', _T))],
     'extend': [([('Array', _T), ('Array', _T)], ('Array', _T))],
@@ -153,13 +164,20 @@ REGISTRY = {
     'toSet': [([('Array', _T)], ('Set', _T))],
     'isEmpty': [([('Array', _T)], _B), ([('Set', _T)], _B), ([('Dict', _K, _V)], _B)],
     'contains': [([('Array', _T), _T], _B), ([('Set', _T), _T], _B), ([('Dict', _K, _V), _K], _B), ([_S, _S], _B)],
-    'add': [([('Set', _T), _T], ('Set', _T))],
+    'add': [([('Set', _T), _T], ('Set', _T))] + _vectorised(_N, _T),
+    'sub': _vectorised(_N, _T),
+    'mul': _vectorised(_N, _T),
+    'floordiv': _vectorised(_N, _T),
+    'mod': _vectorised(_N, _T) + [([(t,), (t,)], (t,)) for t in ('Int32', 'Int64', 'Float32', 'Float64')],
+    'div': (_vectorised(('Int32',), ('Float64',)) + _vectorised(('Int64',), ('Float64',)) + _vectorised(('Float32',), ('Float32',))
+            + _vectorised(('Float64',), ('Float64',))),
+    'pow': _vectorised(_N, ('Float64',)) + [([(t,), (t,)], ('Float64',)) for t in ('Int32', 'Int64', 'Float32', 'Float64')],
     'remove': [([('Set', _T), _T], ('Set', _T))],
     'union': [([('Set', _T), ('Set', _T)], ('Set', _T))],
     'intersection': [([('Set', _T), ('Set', _T)], ('Set', _T))],
     'difference': [([('Set', _T), ('Set', _T)], ('Set', _T))],
     'isSubset': [([('Set', _T), ('Set', _T)], _B)],
-    'get': [([('Dict', _K, _V), _K, _V], _V), ([('Dict', _K, _V), _K], ('v', 'tvalue'))],
+    'get': [([('Dict', _K, _V), _K, _V], _V), ([('Dict', _K, _V), _K], _V)],
     'index': [([('Dict', _K, _V), _K], _V)],
     'keySet': [([('Dict', _K, _V)], ('Set', _K))],
     'keys': [([('Dict', _K, _V)], ('Array', _K))],
@@ -169,7 +187,7 @@ REGISTRY = {
 
 
 def _show_pat(p):
-    if p[0] == 'v':
+    if p[0] in ('v', 'n'):
         return p[1]
     if p[0] in ('Array', 'Set'):
         return f'{p[0]}[{_show_pat(p[1])}]'
@@ -181,7 +199,9 @@ def _show_pat(p):
 
 
 def reg_unify(p, t, sub):
-    if p[0] == 'v':
+    if p[0] in ('v', 'n'):
+        if p[0] == 'n' and t[0] not in NUMERIC:
+            return False
         if p[1] in sub:
             return sub[p[1]] == t
         sub[p[1]] = t
@@ -519,6 +539,15 @@ class ExprGen:
                         'dindex', 'coalesce', 'case', 'switch', 'or_missing', 'dget', 'dget'])
         if want is not None and o in ('div', 'len', 'dindex', 'wfold', 'coalesce', 'case', 'switch'):
             o = 'bin'
+        if o == 'bin' and want is None and rng.random() < 0.35:
+            # scalar % and ** (registry functions mod / pow), also with a Python number on the left (reflected operators)
+            op = rng.choice(['%', '**', '**', '/', '//'])
+            a, ta = self.num(env, d - 1)
+            r = rng.random()
+            other, to = (['pyint', rng.choice([2, 3])], 'i32') if r < 0.4 else (['pyfloat', 2], 'f64') if r < 0.55 else self.num(env, 0)
+            t = promote(ta, to)
+            t = 'f64' if op == '**' else ('f32' if t == 'f32' else 'f64') if op == '/' else t
+            return (['arith', op, a, other] if rng.random() < 0.5 else ['arith', op, other, a]), t
         if o == 'dget':
             # dict<K, V>.get(key[, default]) / dict[key] with a key and a default of OTHER numeric kinds: they must be coerced before the call
             k0, _ = self.num(env, 0, rng.choice(NUMS))
@@ -655,8 +684,34 @@ class ExprGen:
     def array_num(self, env, d, want=None):
         """-> (program of an array of numbers, element kind)"""
         rng = self.rng
-        o = (rng.choice(['mk', 'mk', 'lit', 'map', 'filter', 'missing', 'scan', 'scan', 'ifarr', 'append', 'append', 'extend', 'dkeys'])
+        o = (rng.choice(['mk', 'mk', 'lit', 'map', 'filter', 'missing', 'scan', 'scan', 'ifarr', 'append', 'append', 'extend', 'dkeys',
+                         'arith', 'arith', 'arith'])
              if d > 0 else rng.choice(['mk', 'lit']))
+        if o == 'arith' and want is None:
+            # vectorised arithmetic: array OP scalar, scalar OP array (forward and REFLECTED: a Python number / bool on the left), array OP array
+            op = rng.choice(['+', '-', '*', '/', '//', '%', '**', '**'])
+            a, ta = self.array_num(env, d - 1)
+            shape = rng.choice(['as', 'sa', 'sa', 'aa'])
+            if shape == 'aa':
+                other, to = self.array_num(env, 0)
+            else:
+                r = rng.random()
+                if r < 0.35:
+                    other, to = ['pyint', rng.choice([2, 3, -1])], 'i32'
+                elif r < 0.5:
+                    other, to = ['pyfloat', rng.choice([2, 0.5])], 'f64'
+                elif r < 0.6:
+                    other, to = ['pybool', True], 'i32'
+                else:
+                    other, to = self.num(env, 0)
+            t = promote(ta, to)
+            if op == '**':
+                t = 'f64'
+            elif op == '/':
+                t = 'f32' if t == 'f32' else 'f64'
+            return ['arith', op, a, other] if shape != 'sa' else ['arith', op, other, a], t
+        if o == 'arith':
+            o = 'mk'
         if o in ('append', 'extend'):
             # a.append(x) / a.extend(b) where the item / the other array has the SAME element kind, a narrower one (coercible) or a wider one
             a, ta = self.array_num(env, d - 1, want)
@@ -1298,6 +1353,17 @@ class C36(Prop):
             return b(p[1])[b(p[2])]
         if k == 'method':
             return getattr(self._as_expr(b(p[2])), p[1])(*[b(a) for a in p[3]])
+        if k == 'arith':
+            # Python's operator dispatch, so that the reflected methods (__radd__, __rpow__, …) run when the LEFT operand is a Python number
+            import operator
+            f = {'+': operator.add, '-': operator.sub, '*': operator.mul, '/': operator.truediv, '//': operator.floordiv, '%': operator.mod,
+                 '**': operator.pow}[p[1]]
+            x, y = b(p[2]), b(p[3])
+            if not isinstance(x, hl.expr.Expression) and not isinstance(y, hl.expr.Expression):
+                x = self._as_expr(x)
+            return f(x, y)
+        if k == 'pybool':
+            return bool(p[1])
         raise ValueError(k)
 
     def render_typed(self, x):
